@@ -139,6 +139,7 @@ Example C06_bytes_examples :
   build_array_w (map enc [c06_b; VNull; c06_arr]) [3] = Ok (3 :: enc (VArr [c06_b; VNull; c06_arr])) /\
   build_object_w [[122]; [97]; [122]] (map enc [VNull; c06_arr; c06_b]) [3] = Ok (3 :: enc (VObj [([97], c06_arr); ([122], c06_b)])).
 Proof. vm_compute. repeat split; reflexivity. Qed.
+Print Assumptions C06_bytes_examples.
 
 (* on buffers that are not encodings the model answers as the code does (tied by the malformed stream of the checker):
    a cut inside the header is an error that appends nothing, a cut inside the entries ends the iteration early or panics
@@ -149,6 +150,7 @@ Example C06_bytes_on_corrupt_buffers :
   build_array_st [enc c06_b; [96; 0; 0; 0]] [9] = ([9; 0; 0; 0; 0; 80; 0; 0; 37], Err EOther) /\
   build_array_st [[32; 0; 0; 0; 64]] [9] = ([9; 0; 0; 0; 0], Panic).
 Proof. vm_compute. repeat split; reflexivity. Qed.
+Print Assumptions C06_bytes_on_corrupt_buffers.
 (* ---- BEGIN edit2: byte-level statements for the offset-faithful walkers of EditWalk2.v ------------------------------
    The walker reads header words, drives the iterators of iterator.rs over the input buffer, pushes raw
    (entry, payload slice) pairs and nested builders, and calls build_into(buf).  On the encoding of a well-formed
@@ -202,20 +204,24 @@ Definition ex_doc : value :=                      (* {"a":null,"b":[null,{"c":nu
         (ex_k 101, VObj [(ex_k 102, VNull); (ex_k 103, VArr [VObj [(ex_k 104, VNull)]])])].
 Example C06_ex_doc_wf : wfb ex_doc = true /\ top_ok ex_doc.
 Proof. split; vm_compute; reflexivity. Qed.
+Print Assumptions C06_ex_doc_wf.
 Example C06_ex_strip_nulls :
   strip_nulls_w (enc ex_doc) [170; 187] =
   Ok ([170; 187] ++ enc (VObj [(ex_k 98, VArr [VNull; VObj [(ex_k 100, ex_one)]]); (ex_k 101, VObj [(ex_k 103, VArr [VObj []])])])).
 Proof. vm_compute. reflexivity. Qed.
+Print Assumptions C06_ex_strip_nulls.
 Example C06_ex_delete_by_keypath :               (* b[-1].c : the last element of b is an object, its member c goes *)
   delete_by_keypath_w (enc ex_doc) [KName (ex_k 98); KIndex (-1); KQuoted (ex_k 99)] [1] =
   Ok ([1] ++ enc (VObj [(ex_k 97, VNull);
                         (ex_k 98, VArr [VNull; VObj [(ex_k 100, ex_one)]]);
                         (ex_k 101, VObj [(ex_k 102, VNull); (ex_k 103, VArr [VObj [(ex_k 104, VNull)]])])])).
 Proof. vm_compute. reflexivity. Qed.
+Print Assumptions C06_ex_delete_by_keypath.
 Example C06_ex_delete_by_keypath_miss :          (* b[-3] is out of range: the input is copied *)
   delete_by_keypath_w (enc ex_doc) [KName (ex_k 98); KIndex (-3)] [1] = Ok ([1] ++ enc ex_doc)
   /\ delete_by_keypath_w (enc ex_one) [KIndex 0] [1] = Err EInvalidJsonType.
 Proof. split; vm_compute; reflexivity. Qed.
+Print Assumptions C06_ex_delete_by_keypath_miss.
 Example C06_ex_object_insert :                   (* a container value under a new key between b and e; replacing a *)
   object_insert_w (enc ex_doc) (ex_k 99) (enc (VArr [ex_one; VNull])) false [7] =
   Ok ([7] ++ enc (VObj [(ex_k 97, VNull);
@@ -228,14 +234,17 @@ Example C06_ex_object_insert :                   (* a container value under a ne
                            (ex_k 98, VArr [VNull; VObj [(ex_k 99, VNull); (ex_k 100, ex_one)]]);
                            (ex_k 101, VObj [(ex_k 102, VNull); (ex_k 103, VArr [VObj [(ex_k 104, VNull)]])])])).
 Proof. repeat split; vm_compute; reflexivity. Qed.
+Print Assumptions C06_ex_object_insert.
 Example C06_object_insert_bytes_hyp_ok :         (* the size hypothesis of C06_object_insert_bytes is satisfiable *)
   forall y, object_insert_t ex_doc (ex_k 99) (VArr [ex_one; VNull]) false = Ok y -> wf_size y = true.
 Proof. intros y H. vm_compute in H. injection H as <-. vm_compute. reflexivity. Qed.
+Print Assumptions C06_object_insert_bytes_hyp_ok.
 Example C06_ex_object_delete_pick :
   object_delete_w (enc ex_doc) [ex_k 98; ex_k 122] [] = Ok (enc (VObj [(ex_k 97, VNull); (ex_k 101, VObj [(ex_k 102, VNull); (ex_k 103, VArr [VObj [(ex_k 104, VNull)]])])]))
   /\ object_pick_w (enc ex_doc) [ex_k 98; ex_k 122] [9] = Ok ([9] ++ enc (VObj [(ex_k 98, VArr [VNull; VObj [(ex_k 99, VNull); (ex_k 100, ex_one)]])]))
   /\ object_pick_w (enc (VArr [ex_one])) [ex_k 98] [9] = Err EInvalidObject.
 Proof. repeat split; vm_compute; reflexivity. Qed.
+Print Assumptions C06_ex_object_delete_pick.
 (* ---- END edit2 ---- *)
 
 (* ---- the recursion fuel of strip_nulls / delete_by_keypath (EditWalk2.v: strip_item over nested items, del_item over
@@ -405,3 +414,4 @@ Proof.
   split; [exact SizeBounds.concat_w_enc_from_inputs|]. split; [exact SizeBounds.array_insert_w_enc_from_inputs|exact SizeBounds.object_insert_w_enc_from_inputs].
 Qed.
 Print Assumptions C06_growing_editors_bytes_from_input_sizes.
+Print Assumptions C06_buffer_state_examples.
